@@ -1,33 +1,34 @@
 #!/usr/bin/env python3
-"""Regenerates /verif/MANIFEST.json from the table below and from the list of
-properties for which tool/ registers rules (`tibcvet list`). Run after adding rules."""
+"""Regenerates /verif/MANIFEST.json from the rules registered in tool/ (`tibcvet list -json`
+gives, per property, the statement of what the static rules decide and do not decide).
+Run after adding rules:  python3 gen_manifest.py"""
 import json, subprocess, os, sys
 
 VERIF = os.path.dirname(os.path.abspath(__file__))
 
-# per property: (technique, what the static check decides, what it does not, design section)
-P = {
- "C01": ("SSA edge-dominance + argument-binding + must-pass-through (go/ssa, custom checker)",
-         "every write/event/success in Keeper.RecvPacket is dominated by the nil-error edges of ValidatePacket and ClientState.VerifyPacketCommitment; verifier arguments are bound to the packet's own src/dst/seq, CommitPacket(packet), submitted proof/height and the client+store of the source-or-relay chain; CommitPacket hashes the whole data; msgServer.RecvPacket runs callback/ack only after keeper success; all three light clients reach success only via height bound, consensus state at proof height, delay check and a membership call bound to the protocol key and claimed value; chained ICS-23 verification compares roots and checks every membership result",
-         "cryptographic soundness of ICS-23/MPT, SDK rollback of rejected messages, multi-chain histories"),
+TECH = {
+ "default": "custom static analyser over go/packages + go/ssa: if-edge dominance facts, canonical value terms (argument binding), must-pass-through on the CFG, inter-procedural success summaries, KV key-shape evaluation, call-graph who-may-write",
 }
 
 DEFAULT_NOTE = ("Trusted: go/types + golang.org/x/tools/go/ssa v0.29.0, go/packages load of /repo's working tree, "
-                "cosmos-sdk store branching, third-party verification libraries (ics23, cometbft light, go-ethereum trie). "
-                "Decides structural necessary conditions on every path of the source; does not execute tibc-go.")
+                "cosmos-sdk store branching, third-party verification libraries (ics23, cometbft light, go-ethereum trie/ethash). "
+                "Decides structural necessary conditions on every path of the source; does not execute tibc-go; "
+                "unrecognised idioms fail closed (reported as a violated obligation naming the construct).")
 
+# properties deliberately not claimed, with the reason (kept current by hand)
 NA_REASON = {}
 
 def main():
     ids = [json.loads(l)["id"] for l in open(os.path.join(VERIF, "properties.jsonl"))]
+    env = dict(os.environ, GOFLAGS="-mod=mod", GOPROXY="off", GOSUMDB="off", GOTOOLCHAIN="local")
     try:
-        out = subprocess.run([os.path.join(VERIF, "tool/bin/tibcvet"), "list"], capture_output=True, text=True, check=True).stdout.split()
+        out = subprocess.run([os.path.join(VERIF, "tool/bin/tibcvet"), "list", "-json"], capture_output=True, text=True, check=True, env=env).stdout
+        expl = json.loads(out)
     except Exception as e:
         print("cannot list rules:", e, file=sys.stderr); sys.exit(1)
-    impl = [i for i in ids if i in out and i in P]
+    impl = [i for i in ids if i in expl and i not in NA_REASON]
     checks = []
     for i in impl:
-        tech, decides, notdec = P[i]
         checks.append({
             "property_id": i,
             "quick_cmd": f"./check {i} quick",
@@ -37,11 +38,11 @@ def main():
             "engine": "tibcvet",
             "level_claimed": {
                 "category": "other",
-                "text": f"Static analysis (no execution) of the type-checked SSA of /repo's current tree. Decides, for all paths and inputs at once, these structural necessary conditions of the property: {decides}. It does NOT decide: {notdec}. A violated or undecidable obligation is reported with file:line, function and rule.",
+                "text": "Static analysis (no execution) of the type-checked SSA of /repo's current tree; a verdict holds for all paths and inputs of the analysed functions at once, but only for the structural necessary conditions named here, not for the behaviour as a whole. " + expl[i] + " Every violated or undecidable obligation is reported with file:line, function and rule.",
                 "design_ref": f"DESIGN.md §4 {i}",
             },
             "level_note": DEFAULT_NOTE,
-            "technique": tech,
+            "technique": TECH.get(i, TECH["default"]),
         })
     na = []
     for i in ids:
@@ -61,11 +62,11 @@ def main():
             "name": "tibcvet",
             "path": "/verif/tool",
             "serves_properties": impl,
-            "kind_free_text": "repository-specific static analyser over go/packages + go/ssa: canonical value terms, if-edge dominance facts, must-pass-through, inter-procedural success summaries, KV key-shape evaluation, CHA call graph",
+            "kind_free_text": "repository-specific static analyser over go/packages + go/ssa: canonical value terms, if-edge dominance facts, must-pass-through, inter-procedural success summaries, KV key-shape evaluation, CHA call graph, error-propagation analysis",
         }],
         "checks": checks,
         "not_applicable": na,
-        "notes": "All checks are static analyses of /repo's working tree (technique family: static analysis). Exit 0 held / 1 VIOLATION / 2 checker broken. Known findings: /verif/known_findings.txt.",
+        "notes": "All checks are static analyses of /repo's working tree (technique family: static analysis). Exit 0 held / 1 VIOLATION / 2 checker broken. Known findings: /verif/known_findings.txt. Seeded changes used to test the checks: /verif/seeded/.",
     }
     json.dump(m, open(os.path.join(VERIF, "MANIFEST.json"), "w"), indent=1)
     print("claimed:", impl, "not_applicable:", [x["property_id"] for x in na])
